@@ -6,6 +6,9 @@
 //!                                       every value goes through CommandHandler::handle_command + encode.
 //!                                       Trace: one Deliver event per read, one Decode event per decode call.
 //!   LiveOpen{wire} LiveSend{chunk}* LiveClose   the same bytes written to a socket of a real RespServer
+//!   BigOpen{c,n,wire} BigSend{pre,run,post}* BigClose   a live connection whose first frame is ECHO of n copies of
+//!                                       byte c (tens of KB) followed by `wire`; chunks and the reply stay run-length
+//!                                       encoded in script and trace (reply = head, first long run c^run, rest)
 //!   Probe{bytes}                        one RespValue::decode call in a forked worker process (counting allocator)
 //!   Exhaust{prefix,n,alpha}             a Probe (event "Case") for every string of length n with that prefix
 //!   Big{kind:"nest",d,leaf}             a Probe of d array headers (+ leaf) without logging the bytes
@@ -343,6 +346,7 @@ fn run(scripts: &str, trace: &str, opts: &Opts) -> Res<()> {
         let (mut ndec, mut nrep) = (0u64, 0u64);
         let mut dead = false; // the connection ended on an error: nothing more is driven
         let mut sock: Option<std::net::TcpStream> = None;
+        let mut big_c = 0u8;
 
         for step in &s.steps {
             let op = gs(step, "op");
@@ -411,6 +415,64 @@ fn run(scripts: &str, trace: &str, opts: &Opts) -> Res<()> {
                     let mut got = Vec::new();
                     let eof = c.read_to_end(&mut got).is_ok();
                     tr.emit(event_from(step, json!({"eof": eof, "obs": {"replies": bj(&got)}})))?;
+                }
+                "BigOpen" => {
+                    if live.is_none() {
+                        live = Some(Live::start()?);
+                    }
+                    let c = std::net::TcpStream::connect(("127.0.0.1", live.as_ref().unwrap().port))?;
+                    c.set_nodelay(true)?;
+                    c.set_read_timeout(Some(std::time::Duration::from_secs(10)))?;
+                    sock = Some(c);
+                    big_c = gi(step, "c") as u8;
+                    tr.emit(event_from(step, json!({})))?;
+                }
+                "BigSend" => {
+                    let c = sock.as_mut().expect("BigSend before BigOpen");
+                    let run = gi(step, "run") as usize;
+                    let mut bytes = jb(&step["pre"]);
+                    bytes.extend(std::iter::repeat(big_c).take(run));
+                    bytes.extend(jb(&step["post"]));
+                    let ok = c.write_all(&bytes).and_then(|_| c.flush()).is_ok();
+                    // let the server take these bytes out of the socket before the next write arrives
+                    std::thread::sleep(if bytes.len() > 1024 { pause * 3 } else { pause });
+                    tr.emit(event_from(step, json!({"written": ok})))?;
+                }
+                "BigClose" => {
+                    let mut c = sock.take().expect("BigClose before BigOpen");
+                    let _ = c.shutdown(std::net::Shutdown::Write);
+                    let mut got = Vec::new();
+                    let eof = c.read_to_end(&mut got).is_ok();
+                    // leave the first long run of one byte unexpanded
+                    let (mut at, mut len) = (got.len(), 0usize);
+                    let mut i = 0;
+                    while i < got.len() {
+                        let mut j = i;
+                        while j < got.len() && got[j] == got[i] {
+                            j += 1;
+                        }
+                        if j - i >= 32 {
+                            at = i;
+                            len = j - i;
+                            break;
+                        }
+                        i = j;
+                    }
+                    let cbyte = if len > 0 { got[at] } else { 0 };
+                    if at > 4096 {
+                        // no run where one is expected and a lot of other bytes: log a prefix only
+                        got.truncate(4096);
+                        at = 4096;
+                        len = 0;
+                    }
+                    let rest = &got[at + len..];
+                    if rest.len() > 4096 {
+                        // never expected; keep the trace small
+                        tr.emit(event_from(step, json!({"eof": eof, "obs": {"head": bj(&got[..at]), "c": cbyte, "run": len,
+                            "rest": bj(&rest[..4096]), "truncated": rest.len()}})))?;
+                    } else {
+                        tr.emit(event_from(step, json!({"eof": eof, "obs": {"head": bj(&got[..at]), "c": cbyte, "run": len, "rest": bj(rest)}})))?;
+                    }
                 }
                 "Probe" => {
                     if worker.is_none() {
